@@ -5,7 +5,6 @@ V = '/verif'
 sys.path.insert(0, V + '/rules')
 props = [json.loads(l) for l in open(V + '/properties.jsonl')]
 NA = {
- 'C08': "intersection area / IoU exactness, symmetry, rigid-motion invariance and pre-filter soundness quantify over f64 geometry of all box pairs; no necessary condition is visible in the shape of the code without freezing formulas (a larger-but-sound pre-filter bound must not alarm), so static analysis gives no sound verdict",
  'C15': "the share equals an area computed by geo's boolean operations; correctness and robustness on near-degenerate inputs are numeric, and the only structural sliver (a clamp) cannot be anchored without a textual proxy",
  'C16': "lane packing (n mod 8 arithmetic) and the distance identities are value-level statements over all vector lengths and f32 values; nothing in the code shape decides them",
 }
